@@ -422,7 +422,17 @@ fn ts(rng: &mut Rng, av: Avoid) -> TsD {
     const MAX_SECS: u64 = 253_402_300_799; // 9999-12-31T23:59:59Z
     const U64_SECS: u64 = 18_446_744_073; // 2^64 ns
     let hi = if av.far_future { U64_SECS - 1 } else { MAX_SECS };
-    let secs = match rng.below(8) {
+    // calendar edges: 29 February (1972, 2000, 2024, 2096, 2400, 9996), the last day of a leap and of a common year,
+    // the days around the missing 29 February 2100
+    const DAYS: [u64; 12] = [
+        68_169_600, 951_782_400, 1_709_164_800, 3_981_312_000, 13_574_563_200, 253_281_168_000, 1_735_603_200, 1_703_980_800, 4_107_456_000,
+        4_107_542_400, 1_709_251_200, 31_449_600,
+    ];
+    let secs = match rng.below(9) {
+        8 => {
+            let d = *rng.pick(&DAYS);
+            if d + 86_399 <= hi { d + rng.below(86_400) } else { 1_709_164_800 + rng.below(86_400) }
+        }
         0 => 0,
         1 => hi,
         2 => 1,
